@@ -14,6 +14,13 @@ the instrumented renderable of impl/impl_c10.py (VR10, built on C08's VR):
   `finalized` flag seen by every `_render_`; state after `del iterator; gc.collect()`.
 * one-shot operations `render()`, `str()`, `draw()` (to a StringIO; still and animated;
   with size-validation failures), again with every fault position enumerated.
+* a finalizer that raises: `_finalize_render_data_` raises RuntimeError at scheduled
+  invocation numbers (per data object; [0], [1], [0, 1]) - on the unfaulted history (as is,
+  so that it often fires at garbage collection, and with the probe suffix) and combined
+  with every render-fault position; observed additionally: where the exception came out
+  (next / close / drop / the caller's own finalize()), those reported as unraisable inside
+  a `__del__`.  Model side: model/IterFin.v (Iter + oracle), `close()` as repaired by
+  pending_fixes/C10_close_finalizer_raises.diff.
 
 model/IterFinTie.v judges inside Coq: [check10] / [ocheck10] = bit 1 (differs from the
 finalisation ghost of the code model Iter) + bit 2 (the observations alone contradict the
@@ -506,7 +513,10 @@ def run(ctx):
                 "operation is run unfaulted, then once per (k, kind) with kind in {RuntimeError, StopIteration"
                 "[, AttributeError/KeyError/ValueError/IndexError]} injected into the k-th _render_ call for ALL k "
                 "below the number of _render_ calls of the unfaulted run; iterator variants get a 10-operation probe "
-                "suffix (next, seek, 4 setters, close, next, drop, seek).  Iterators are made by RenderIterator(...), "
+                "suffix (next, seek, 4 setters, close, next, drop, seek); plus, per finalizer schedule ([0] mostly, "
+                "[1], [0,1]: invocation numbers at which _finalize_render_data_ raises RuntimeError), the unfaulted "
+                "run as is and with the probe suffix, and every render-fault position (RuntimeError) with that "
+                "schedule.  Iterators are made by RenderIterator(...), "
                 "_from_render_data_(finalize=False) and _from_render_data_(finalize=True); histories come from the C08 "
                 "generator (frame counts {2,3,5,INDEFINITE}, loops {-1,1,2,3}, all cache / padding / duration kinds, "
                 "close / drop inside the history, invalid constructor arguments); faults inside render data creation "
@@ -531,8 +541,10 @@ def run(ctx):
             "generator.close() at a plain yield runs no code",
             "skeleton lemmas: the call table of harness/tx/tx_skel.py (which calls create / finalize render data, "
             "which may raise) and the abstract-interpreter soundness theorem EffSound.analyze_sound",
-            "_finalize_render_data_ itself does not raise (RenderData.finalize sets finalized in a finally, so the "
-            "count stays one; not exercised)",
+            "_finalize_render_data_ may raise (oracle fr in model/IterFin.v; exercised with RuntimeError at scheduled "
+            "invocations); RenderIterator.close() is modelled as REPAIRED by pending_fixes/"
+            "C10_close_finalizer_raises.diff (_closed set in a finally); the skeleton lemmas still treat Finalize as a "
+            "non-faulting call",
         ],
         "trusted": [
             "impl driver impl_c10.py: identifies render data objects by a serial number written into their own VR10 "
